@@ -151,6 +151,10 @@ def run_in_state(prog, fn: Function, st, config: Optional[Dict[str, T]] =
             return True          # conversion helpers of the module
         if f.cls is not None and f.name == fn.name and f is not fn:
             return True          # super().same_method(...)
+        if not it._known(f) and not f.name.startswith("__"):
+            return True          # helpers / methods added after the pinned
+            #                      tree (a flush helper of an extracted base
+            #                      class ...): looked through
         return False
     it._explicit_inline = inline
     return it.run(fn, dict(config or {}), self_cls)
@@ -214,8 +218,10 @@ def mutator_methods(prog, results) -> List[Function]:
         for name, m in sorted(c.methods.items()):
             if name == "__init__" or (m.is_property and name in PUBLIC):
                 continue
+            from ..known_functions import KNOWN_FUNCTIONS
             if name.startswith("_") and not name.startswith("__") and \
-                    _called_within_class(prog, results, c, m):
+                    (_called_within_class(prog, results, c, m) or
+                     m.qualname not in KNOWN_FUNCTIONS):
                 # private helper of other methods: judged as part of its
                 # callers (it is looked through when they are analysed)
                 continue
@@ -1383,13 +1389,18 @@ def _propagate(ctx, f, res: Result, selfp: T, tpar: T, mode: str):
         every = [(k, e) for k, e in every if k is not None]
     # on *every* path of this mode (also for a single pose, an empty tail)
     ok3 = bool(every) and all(k for k, _ in every)
-    ctx.ob("C08.5", [e for k, e in every if not k][0] if every and not ok3
-           else f, ok3,
-           "transform[propagate]: the first pose is kept" if ok3 else
-           "transform[propagate]: new pose list does not start with the "
-           "original first pose on every path of this mode (e.g. a branch "
-           "for short trajectories that right-multiplies every pose)",
-           key="C08.5:transform:propagate:first")
+    if not every:
+        ctx.undecidable("C08.5", f, "transform[propagate]: the store of the "
+                        "new pose list is not read at the level of "
+                        "transform() (written by a helper)")
+    else:
+        ctx.ob("C08.5", [e for k, e in every if not k][0] if every and not ok3
+             else f, ok3,
+             "transform[propagate]: the first pose is kept" if ok3 else
+             "transform[propagate]: new pose list does not start with the "
+             "original first pose on every path of this mode (e.g. a branch "
+             "for short trajectories that right-multiplies every pose)",
+             key="C08.5:transform:propagate:first")
     # accumulation new[k+1] = new[k] . D_k, k = 0..n-2 in order
     ok4 = None
     why4 = "accumulation new[k+1] = new[k].D_k not recognised"
